@@ -592,6 +592,29 @@ theorem fileStep_inv (fs : Fs) (hinv : Inv fs) (fd : Fd) (hfd : FdOk fs fd) (op 
     | mk fd' r =>
       rw [hs] at hl
       cases r <;> exact ⟨hinv, fdOk_of_same fs fd fd' hfd hl.1 hl.2⟩
+  | seekF off w => exact ⟨hinv, hfd⟩
+  | sizeF k =>
+    simp only [fileStep, fileSizeF_eq]
+    refine ⟨hinv, ?_⟩
+    split
+    · exact hfd
+    · split
+      · exact fdOk_of_same fs fd _ hfd rfl rfl
+      · exact hfd
+  | readAllF k =>
+    simp only [fileStep, fileReadAllF, fileSizeF_eq]
+    refine ⟨hinv, ?_⟩
+    by_cases h1 : k ≤ 1
+    · rw [if_pos h1]; exact hfd
+    · by_cases h2 : k = 2 ∧ fd.pos ≠ (fileData fs fd.path).length
+      · rw [if_neg h1, if_pos h2]; exact fdOk_of_same fs fd _ hfd rfl rfl
+      · rw [if_neg h1, if_neg h2]
+        simp only
+        have hl := sysRead_fd fs fd (fileData fs fd.path).length
+        cases hs : sysRead fs fd (fileData fs fd.path).length with
+        | mk fd' r =>
+          rw [hs] at hl
+          cases r <;> exact fdOk_of_same fs fd fd' hfd hl.1 hl.2
 
 theorem runOps_inv : ∀ (ops : List FileOp) (fs : Fs) (fd : Fd), Inv fs → FdOk fs fd → Inv (runOps fs fd ops).1 := by
   intro ops
